@@ -397,6 +397,13 @@ def fit_scipy(
         ndf = s.x.shape[0]
         min_nll = s.fun
         success = s.success
+        if standard_complex and bounds_dict:
+            # the bounds were handed to scipy only: register them so that
+            # standard_complex leaves the bounded parameters in their range
+            fcn.vm.set_bound(bounds_dict)
+            fcn.vm.standard_complex()
+            fcn.vm.remove_bound()
+            standard_complex = False
     elif method in ["Newton-CG", "trust-krylov", "trust-ncg", "trust-exact"]:
         fcn.vm.set_bound(bounds_dict)
         return fit_newton_cg(fcn, method, False)
